@@ -1,8 +1,14 @@
 (* C07 -- user sections pass through unchanged; the Quadlet section is kept as X-<name>.
-   PARTIAL: the theorems below are the multimap laws for the operations the converters compose (which the unit tests
-   never compose) and kernel-checked witnesses over the full container converter model; the statement over every
-   converter run ("for all units ...") is decided by the direct oracle of tools/props/C07.py on implementation output. *)
-From QV Require Import Model.Base Model.Quote Model.Unit Model.Names Model.Convert Proofs.C07.
+   Proved for every successful run of every converter of the model (all seven unit types), and for the whole generator run
+   (parse, name table, sort, convert): the generated service holds, per (section, key), exactly the user's values in their
+   original order, possibly behind the default dependency (only [Unit] After/Wants) and possibly followed by generator entries
+   (only the listed (section, key) pairs of that unit type); the own section and [Quadlet] reappear verbatim as X-<name>;
+   a managed [Service] setting the user chose is left exactly as written.
+   NOT covered by a theorem (decided by the direct oracle of tools/props/C07.py on implementation output): a non-empty user
+   WorkingDirectory in .kube/.build units and Type=oneshot in .kube units are never overwritten; [Service] NotifyAccess being
+   the only user entry a non-oneshot container may lose follows from C07_conversion_passes_through only in the form
+   "the managed keys are the only exempt ones". *)
+From QV Require Import Model.Base Generated.Tables Model.Quote Model.Unit Model.Parser Model.Names Model.Convert Model.Process Proofs.C07 Proofs.C07run.
 
 (* add(sec,k,v): every (section, key) keeps its values in order; only (sec,k) gains one value, at the end *)
 Theorem C07_add_keeps_order : forall u sec k v sec' k',
@@ -21,6 +27,106 @@ Qed.
 (* ... and on the key itself only the last value is replaced *)
 Theorem C07_set_replaces_last : forall u sec k raw, vals (set_entry u sec k raw) sec k = removelast (vals u sec k) ++ [raw].
 Proof. exact vals_set_same. Qed.
+
+(* ---- every converter run ---- *)
+(* A_of t: the (section, key) pairs the converter of type t may append to; hidden t: the unit's own section, [Quadlet] and their X- names *)
+Theorem C07_conversion_passes_through : forall podman exists_path kill_fixed mount_nl u path t tbl svc p tbl',
+  NoDup (map fst u) ->
+  convert_one podman exists_path kill_fixed mount_nl u path t tbl = COk (svc, p, tbl') ->
+  (forall sec k, ~ In sec (hidden t) -> (sec = SEC_S -> ~ In k MANAGED) ->
+     exists pre post, vals svc sec k = pre ++ vals u sec k ++ post
+       /\ (~ In (sec, k) (A_of t) -> post = [])
+       /\ (pre = [] \/ (sec = SEC_U /\ (k = s2l "After" \/ k = s2l "Wants") /\ pre = [s2l "network-online.target"])))
+  /\
+  (forall k, vals svc (type_xsection t) k = vals u (type_xsection t) k ++ vals u (type_section t) k /\
+             vals svc c_X_QUADLET_SECTION k = vals u c_X_QUADLET_SECTION k ++ vals u SEC_Q k /\
+             vals svc (type_section t) k = [] /\ vals svc SEC_Q k = []).
+Proof. exact every_run_passes_through. Qed.
+
+(* [Install] and any other section the generator does not know: exactly the user's entries *)
+Theorem C07_other_sections_exact : forall podman exists_path kill_fixed mount_nl u path t tbl svc p tbl' sec k,
+  NoDup (map fst u) -> convert_one podman exists_path kill_fixed mount_nl u path t tbl = COk (svc, p, tbl') ->
+  ~ In sec (hidden t) -> sec <> SEC_U -> sec <> SEC_S -> vals svc sec k = vals u sec k.
+Proof. exact other_sections_exact. Qed.
+
+(* the premise NoDup holds for everything the parser returns *)
+Theorem C07_parsed_units_have_distinct_sections : forall text u, parse_unit text = Some u -> NoDup (map fst u).
+Proof. exact parse_nodup. Qed.
+
+(* the whole generator run over arbitrary file contents *)
+Theorem C07_every_generated_service_passes_through : forall podman exists_path kill_fixed mount_nl files path svc sp,
+  In (path, ROk svc sp) (snd (process_files podman exists_path kill_fixed mount_nl files)) ->
+  exists text u t, In (path, text) files /\ parse_unit text = Some u /\
+    (forall sec k, ~ In sec (hidden t) -> (sec = SEC_S -> ~ In k MANAGED) ->
+       exists pre post, vals svc sec k = pre ++ vals u sec k ++ post
+         /\ (~ In (sec, k) (A_of t) -> post = [])
+         /\ (pre = [] \/ (sec = SEC_U /\ (k = s2l "After" \/ k = s2l "Wants") /\ pre = [s2l "network-online.target"])))
+    /\
+    (forall k, vals svc (type_xsection t) k = vals u (type_xsection t) k ++ vals u (type_section t) k /\
+               vals svc c_X_QUADLET_SECTION k = vals u c_X_QUADLET_SECTION k ++ vals u SEC_Q k /\
+               vals svc (type_section t) k = [] /\ vals svc SEC_Q k = []).
+Proof. exact every_generated_service_passes_through. Qed.
+
+(* ---- managed settings the user chose (repaired KillMode handling: kill_fixed = true) ---- *)
+Theorem C07_killmode_kept : forall podman exists_path mount_nl u path t tbl svc p tbl',
+  NoDup (map fst u) -> lookup_last_value u SEC_S (s2l "KillMode") <> None ->
+  convert_one podman exists_path true mount_nl u path t tbl = COk (svc, p, tbl') ->
+  vals svc SEC_S (s2l "KillMode") = vals u SEC_S (s2l "KillMode").
+Proof. exact killmode_kept. Qed.
+
+Theorem C07_syslog_identifier_kept : forall podman exists_path mount_nl u path t tbl svc p tbl',
+  NoDup (map fst u) -> lookup_last_value u SEC_S (s2l "SyslogIdentifier") <> None ->
+  convert_one podman exists_path true mount_nl u path t tbl = COk (svc, p, tbl') ->
+  vals svc SEC_S (s2l "SyslogIdentifier") = vals u SEC_S (s2l "SyslogIdentifier").
+Proof. exact syslog_identifier_kept. Qed.
+
+Theorem C07_remain_after_exit_kept : forall podman exists_path mount_nl u path t tbl svc p tbl',
+  NoDup (map fst u) -> lookup_last_value u SEC_S (s2l "RemainAfterExit") <> None ->
+  convert_one podman exists_path true mount_nl u path t tbl = COk (svc, p, tbl') ->
+  vals svc SEC_S (s2l "RemainAfterExit") = vals u SEC_S (s2l "RemainAfterExit").
+Proof. exact remain_after_exit_kept. Qed.
+
+Theorem C07_container_oneshot_kept : forall podman exists_path mount_nl u path tbl svc p tbl',
+  NoDup (map fst u) -> @lk berr u SEC_S (s2l "Type") = COk (Some (s2l "oneshot")) ->
+  convert_one podman exists_path true mount_nl u path TContainer tbl = COk (svc, p, tbl') ->
+  vals svc SEC_S (s2l "Type") = vals u SEC_S (s2l "Type") /\ vals svc SEC_S (s2l "NotifyAccess") = vals u SEC_S (s2l "NotifyAccess").
+Proof. exact container_oneshot_kept. Qed.
+
+Theorem C07_oneshot_type_kept : forall podman exists_path mount_nl u path t tbl svc p tbl',
+  t = TImage \/ t = TNetwork \/ t = TVolume \/ t = TBuild ->
+  NoDup (map fst u) -> lookup_last_value u SEC_S (s2l "Type") <> None ->
+  convert_one podman exists_path true mount_nl u path t tbl = COk (svc, p, tbl') ->
+  vals svc SEC_S (s2l "Type") = vals u SEC_S (s2l "Type").
+Proof. exact oneshot_type_kept. Qed.
+
+(* the tables the statements above mention, spelled out *)
+Theorem C07_tables :
+  MANAGED = [s2l "KillMode"; s2l "SyslogIdentifier"; s2l "Type"; s2l "NotifyAccess"; s2l "RemainAfterExit"] /\
+  (forall t, hidden t = [type_section t; type_xsection t; SEC_Q; c_X_QUADLET_SECTION]) /\
+  A_of TContainer = [(SEC_U, s2l "Requires"); (SEC_U, s2l "After"); (SEC_U, s2l "BindsTo"); (SEC_U, s2l "RequiresMountsFor"); (SEC_U, s2l "SourcePath");
+                     (SEC_S, s2l "Environment"); (SEC_S, s2l "ExecStop"); (SEC_S, s2l "ExecStopPost"); (SEC_S, s2l "ExecStart"); (SEC_S, s2l "Delegate")] /\
+  A_of TKube = [(SEC_U, s2l "Requires"); (SEC_U, s2l "After"); (SEC_U, s2l "BindsTo"); (SEC_U, s2l "RequiresMountsFor"); (SEC_U, s2l "SourcePath");
+                (SEC_S, s2l "Environment"); (SEC_S, s2l "ExecStart"); (SEC_S, s2l "ExecStopPost"); (SEC_S, s2l "Type"); (SEC_S, s2l "NotifyAccess");
+                (SEC_S, s2l "WorkingDirectory")] /\
+  A_of TPod = [(SEC_U, s2l "Requires"); (SEC_U, s2l "After"); (SEC_U, s2l "BindsTo"); (SEC_U, s2l "RequiresMountsFor"); (SEC_U, s2l "SourcePath");
+               (SEC_U, s2l "Wants"); (SEC_U, s2l "Before"); (SEC_S, s2l "ExecStart"); (SEC_S, s2l "ExecStop"); (SEC_S, s2l "ExecStopPost");
+               (SEC_S, s2l "ExecStartPre"); (SEC_S, s2l "Environment"); (SEC_S, s2l "Type"); (SEC_S, s2l "Restart"); (SEC_S, s2l "PIDFile")] /\
+  A_of TBuild = [(SEC_U, s2l "Requires"); (SEC_U, s2l "After"); (SEC_U, s2l "BindsTo"); (SEC_U, s2l "RequiresMountsFor"); (SEC_U, s2l "SourcePath");
+                 (SEC_S, s2l "ExecStart"); (SEC_S, s2l "WorkingDirectory")] /\
+  (forall t, t = TImage \/ t = TNetwork \/ t = TVolume ->
+     A_of t = [(SEC_U, s2l "Requires"); (SEC_U, s2l "After"); (SEC_U, s2l "BindsTo"); (SEC_U, s2l "RequiresMountsFor"); (SEC_U, s2l "SourcePath");
+               (SEC_S, s2l "ExecStart")]).
+Proof. repeat split; try reflexivity. intros t [->|[->| ->]]; reflexivity. Qed.
+
+(* non-vacuity: a unit with an extra section, a reset After= list and a user KillMode goes through the whole run *)
+Theorem C07_example :
+  match process_files (s2l "/usr/bin/podman") (fun _ => false) true false [(s2l "/d/a.container", ex_text)] with
+  | (_, [(_, ROk svc _)]) =>
+      vals svc (s2l "X-Meta") (s2l "Owner") = [s2l "me"] /\ vals svc SEC_U (s2l "After") = [s2l "network-online.target"; []; s2l "foo.service"] /\
+      vals svc SEC_S (s2l "KillMode") = [s2l "control-group"] /\ vals svc (s2l "X-Container") (s2l "Image") = [s2l "img"]
+  | _ => False
+  end.
+Proof. exact every_generated_service_example. Qed.
 
 (* the pinned code overwrote a permitted KillMode=control-group; the repaired code keeps it (full container converter) *)
 Theorem C07_pinned_refuted :
